@@ -21,7 +21,8 @@ LIMITS = ["headers >= 4 GiB (32-bit length field overflow) cannot be built in me
 ASSUMPTIONS = ["reference digest construction (vf/refs/openpgp.py) follows RFC 4880 5.2.4; validated against GnuPG output and shipped fixtures",
                "GnuPG stand-in parses v4 signature / public-key packets correctly (its output is first checked by the reference verifier)"]
 
-HDR_LENS = {"quick": [1, 2, 34, 255, 256, 65535, 65536], "thorough": [1, 2, 3, 34, 35, 255, 256, 257, 65535, 65536, 65537, 2**20]}
+HDR_LENS = {"quick": [1, 2, 34, 255, 256, 65535, 65536, 65541, 65542, 131072],
+            "thorough": [1, 2, 3, 34, 35, 255, 256, 257, 65535, 65536, 65537, 65541, 65542, 65543, 131072, 2**20]}
 DATA_LENS = {"quick": [0, 1, 16, 17, 64, 1000, 100000], "thorough": [0, 1, 15, 16, 17, 55, 56, 64, 119, 1000, 65536, 1_000_000]}
 
 
@@ -33,6 +34,7 @@ def plan(tier, seed):
     for _ in range(2 if q else 10):
         specs.append({"kind": "bitsweep", "count": 1 if q else 2, "full": not q})
     specs.append({"kind": "envelope", "count": 200 if q else 4000})
+    specs.append({"kind": "buffers", "count": 60 if q else 1500})
     specs.append({"kind": "gnupg", "count": 6 if q else 100, "genkeys": 1 if q else 5, "shim": True})
     return specs
 
@@ -308,7 +310,56 @@ def run_gnupg(spec, rec, lib):
         home.__exit__(None, None, None)
 
 
+def run_buffers(spec, rec, lib):
+    """histories over ONE long-lived bytes-like payload object (bytearray) that the caller edits in place between
+    verifications, and over one long-lived entry dict: the verdict follows the current content"""
+    rng = random.Random(spec["seed"])
+    A = lib.authentication
+    for n in range(spec["count"]):
+        key = gkeys.key(rng.randrange(8))
+        data0 = canonjson.canon(jsonvals.rand_value(rng, 0, 3, 3)) + b" " * rng.randint(1, 4)
+        hdr = openpgp.gnupg_style_header(rng.randbytes(20), rng.randrange(2**32))
+        entry = openpgp.make_entry(key.seed, data0, hdr)
+        buf = bytearray(data0)
+        ent = dict(entry)
+        log = []
+        for step in range(rng.randint(3, 8)):
+            op = rng.choice(["none", "flip_buf", "restore_buf", "append_buf", "flip_hdr", "restore_hdr", "other_object_same_content"])
+            if op == "flip_buf":
+                i = rng.randrange(len(buf))
+                buf[i] ^= 1 << rng.randrange(8)
+            elif op == "restore_buf":
+                buf[:] = data0
+            elif op == "append_buf":
+                buf.extend(b"\n")
+            elif op == "flip_hdr":
+                ent["other_headers"] = flipbit(bytes.fromhex(ent["other_headers"]), rng.randrange(len(hdr) * 8)).hex()
+            elif op == "restore_hdr":
+                ent["other_headers"] = entry["other_headers"]
+            log.append(op)
+            payload = bytes(buf) if op == "other_object_same_content" else buf
+            ok = openpgp.verify(key.pub, bytes(buf), bytes.fromhex(ent["other_headers"]), bytes.fromhex(ent["signature"]))
+            o = boundary.call(lib, A.verify_gpg_signature, ent, key.hex, payload)
+            rec.case("buffers|%s|%s" % (op, ok))
+            rec.count("buffer_history_calls")
+            case = {"kind": "buffers", "ops": list(log), "seed": key.seed.hex()}
+            if not o.accepted and o.family == "TypeError" and step == 0:
+                rec.count("bytearray_payload_not_accepted")  # a library that only takes bytes: nothing to check
+                break
+            if ok and not o.accepted:
+                rec.violation(boundary.mechanism("false-reject", "verify_gpg_signature[long-lived buffer]", "accept", o),
+                              "valid for the buffer's CURRENT content, rejected (history %s)" % "->".join(log), case)
+                break
+            if not ok and o.accepted:
+                rec.violation("unsound-accept/verify_gpg_signature/stale-content-of-long-lived-buffer",
+                              "accepted although the buffer's current content / header does not verify (history %s)" % "->".join(log), case)
+                break
+    rec.sample({"buffers": "one bytearray payload and one entry dict edited in place between verify_gpg_signature calls"})
+
+
 def run_shard(spec, rec, lib):
+    if spec["kind"] == "buffers":
+        return run_buffers(spec, rec, lib)
     {"ref": run_ref, "bitsweep": run_bitsweep, "envelope": run_envelope, "gnupg": run_gnupg}[spec["kind"]](spec, rec, lib)
 
 
